@@ -235,7 +235,8 @@ fn case(c: &Case, rec: &mut Rec) {
 
 pub fn run(ctx: &mut Ctx) {
     let tier = ctx.tier;
-    let fs: Vec<Func> = functionals().into_iter().filter(|f| tier == Tier::Thorough || f.quick).collect();
+    // the quick tier runs every functional as well: the ones not flagged `quick` on the 1-D Cartesian and the 2-D periodic grid only
+    let fs: Vec<Func> = functionals();
     let mut cases = vec![];
     for f in &fs {
         let grids: Vec<(&'static str, Vec<usize>)> = match tier {
@@ -243,6 +244,9 @@ pub fn run(ctx: &mut Ctx) {
             Tier::Thorough => vec![("cartesian1", vec![256, 1024]), ("spherical", vec![256, 1024]), ("polar", vec![1024]), ("cartesian2", vec![32, 64]), ("periodical2", vec![32, 64]), ("cylindrical", vec![1024]), ("cartesian3", vec![16]), ("periodical3", vec![16])],
         };
         for (kind, ns) in grids {
+            if tier == Tier::Quick && !f.quick && !matches!(kind, "cartesian1" | "periodical2") {
+                continue;
+            }
             for n in ns {
                 for profile in ["tanh", "oscillation"] {
                     let k = match (tier, kind) {
